@@ -52,6 +52,11 @@ CONFIGS = {
         ("table", conf(Ssrcs="{1, 2}", ForgedSsrcs="{8, 9}", SeqAlpha="{15, 0, 1}", StartIdx="{16}", StepsFwd="{1}",
                        StepsBack="{}", WithTick="TRUE", RtpForgeKinds='{"newssrc", "wrongkey"}',
                        RtcpForgeKinds='{"newssrc"}', WithRtcp="TRUE", ForgeOffsets="{1}", MaxLen=5, MaxSent=3)),
+        # more genuine streams than the high-water mark: legitimate eviction by authenticated traffic; forged
+        # packets arriving while the table is over the mark and contexts are stale must still change nothing
+        ("churn", conf(Ssrcs="{1, 2, 3}", ForgedSsrcs="{9}", SeqAlpha="{15, 0}", StartIdx="{16}", StepsFwd="{1}",
+                       StepsBack="{}", WithTick="TRUE", RtpForgeKinds='{"newssrc", "wrongkey"}', RtcpForgeKinds="{}",
+                       ForgeOffsets="{1}", MaxLen=5, MaxSent=4)),
     ],
     ("C05", "thorough"): [
         ("forge/bits4", conf(ForgedSsrcs="{9}", StepsFwd="{1, 2, 7}", StepsBack="{1, 7}", WithRtcp="TRUE",
@@ -64,6 +69,11 @@ CONFIGS = {
         ("table", conf(Ssrcs="{1, 2}", ForgedSsrcs="{8, 9}", SeqAlpha="{15, 0, 1}", StartIdx="{16}", StepsFwd="{1}",
                        StepsBack="{}", WithTick="TRUE", RtpForgeKinds='{"newssrc", "wrongkey"}',
                        RtcpForgeKinds='{"newssrc"}', WithRtcp="TRUE", ForgeOffsets="{1}", MaxLen=6, MaxSent=3)),
+        # more genuine streams than the high-water mark: legitimate eviction by authenticated traffic; forged
+        # packets arriving while the table is over the mark and contexts are stale must still change nothing
+        ("churn", conf(Ssrcs="{1, 2, 3}", ForgedSsrcs="{9}", SeqAlpha="{15, 0}", StartIdx="{16}", StepsFwd="{1}",
+                       StepsBack="{}", WithTick="TRUE", RtpForgeKinds='{"newssrc", "wrongkey"}', RtcpForgeKinds="{}",
+                       ForgeOffsets="{1}", MaxLen=6, MaxSent=4)),
     ],
 }
 
@@ -219,3 +229,65 @@ def replay_one(pid, path):
     ck.cov.update(states=1, transitions=1, traces_validated_against_impl=summ["edges"], samples=[case],
                   evaluations=summ["evaluations"])
     ck.finish()
+
+
+# ---- negative controls kept runnable: ./check C04 --selftest / ./check C05 --selftest ---------------------
+SELF_DEV = {
+    # deviation -> (configuration, a property it must break, a property it must NOT break or None)
+    "EstimateSlack": (conf(StartIdx="{15, 24}", MaxLen=3, MaxSent=3), ("SenderAgreement", "IndexAgreement")),
+    "RtpUpdateBeforeAuth": (conf(StepsFwd="{1, 7}", StepsBack="{1}", RtpForgeKinds='{"wrongkey", "reseq"}',
+                                 ForgeOffsets="{1, 7, 9}", MaxLen=3), ("ForgeUnchanged", "AcceptanceStable")),
+    "RtcpIndexBeforeAuth": (conf(StepsFwd="{1}", WithRtcp="TRUE", RtcpForgeKinds='{"reindex", "wrongkey"}', MaxLen=3),
+                            ("ForgeUnchanged",)),
+    "TableBeforeAuth": (CONFIGS[("C05", "quick")][2][1], ("ForgeUnchanged", "AcceptanceStable")),
+}
+
+
+def selftest(pid):
+    ok = True
+    ck = vlib.Check(pid + "-selftest", "quick")
+    # (i) each deviation-on model violates the rule it is about
+    for dev, (consts, broken) in SELF_DEV.items():
+        cfg = os.path.join(vlib.SPEC, f"MC_Srtp_selftest_{dev}.gen.cfg")
+        # only the rules of the property the deviation is about are switched on (Props), so the reported
+        # violation is one of that listed property, not of an EXT rule
+        props = '{"C04"}' if dev == "EstimateSlack" else '{"C05"}'
+        write_cfg(cfg, consts, emit=False, deviations='{"%s"}' % dev, props=props)
+        res = vlib.tlc("MC_Srtp", os.path.basename(cfg), timeout=900, workers=4, tag=f"srtp_self_{dev}", heap="3g")
+        os.remove(cfg)
+        hit = [b for b in broken if any(b in e for e in res["errors"])]
+        print(f"selftest: Deviations={{{dev}}} violates {hit or 'NOTHING'} (expected one of {list(broken)})")
+        ok = ok and bool(hit)
+    # (ii) with RtcpIndexBeforeAuth the acceptance set is still stable (state moved, acceptance did not):
+    #      ForgeUnchanged and AcceptanceStable are distinct claims
+    consts = SELF_DEV["RtcpIndexBeforeAuth"][0]
+    cfg = os.path.join(vlib.SPEC, "MC_Srtp_selftest_acc.gen.cfg")
+    write_cfg(cfg, consts, emit=False, deviations='{"RtcpIndexBeforeAuth"}')
+    with open(cfg) as f:
+        txt = f.read().replace(f"PROPERTIES {PROPERTIES}", "PROPERTIES AcceptanceStable")
+    with open(cfg, "w") as f:
+        f.write(txt)
+    res = vlib.tlc("MC_Srtp", os.path.basename(cfg), timeout=900, workers=4, tag="srtp_self_acc", heap="3g")
+    os.remove(cfg)
+    print("selftest: RtcpIndexBeforeAuth keeps AcceptanceStable:", not res["errors"])
+    ok = ok and not res["errors"]
+    # (iii) a corrupted expectation is reported by the replayer: claim 'must accept' for a delivery the model rejects
+    vlib.build_harness(["srtp"])
+    res, edges = gen_edges(ck, pid, "selftest", "tiny", conf(StartIdx="{15}", MaxLen=3, MaxSent=3))
+    bad = None
+    with open(edges) as f:
+        for line in f:
+            e = json.loads(line)
+            if e["act"][0] == "deliver" and e["act"][6] == 0 and e["act"][8] == 0:
+                e["act"][7] = 1
+                bad = e
+                break
+    if bad is None:
+        raise vlib.ToolError("no rejected delivery in the tiny model")
+    ep = os.path.join(ck.dir, "corrupt.ndjson")
+    vlib.write_ndjson(ep, [bad])
+    rows, summ = replay_edges(ck, ep, "corrupt", shards=1)
+    got = [r for r in rows if r.get("type") == "divergence" and r["prop"] == "C04" and r["rule"] == "IndexAgreement"]
+    print("selftest: corrupted must-accept flag is reported by the replayer:", len(got) > 0)
+    ok = ok and len(got) > 0
+    raise SystemExit(0 if ok else 2)
